@@ -219,6 +219,41 @@ Proof.
   apply strip_prefix_Some in E. rewrite (Hp r E). reflexivity.
 Qed.
 
+(* every text the parser knows as a name is the text Code.String gives to that
+   code: the parser accepts no spelling that the printer does not produce *)
+Definition parse_names_are_names : bool :=
+  forallb (fun p => match assocN (snd p) code_names with
+                    | Some n => bs_eqb n (fst p)
+                    | None => false end) code_parse_names.
+
+Lemma parse_names_are_names_ok : parse_names_are_names = true.
+Proof. vm_compute. reflexivity. Qed.
+
+Lemma assocB_Some_in {A} k (l : list (bytes * A)) v :
+  assocB k l = Some v -> exists k', In (k', v) l /\ bs_eqb k k' = true.
+Proof.
+  induction l as [|[k' v'] l IH]; simpl; intro H; [discriminate|].
+  destruct (bs_eqb k k') eqn:E.
+  - inversion H; subst. exists k'. split; [left; reflexivity | exact E].
+  - destruct (IH H) as (k2 & Hin & E2). exists k2. split; [right; exact Hin | exact E2].
+Qed.
+
+(* text that is not the name Code.String gives to some code, and not of the
+   code_<number> form, is rejected — "defined name" taken from the PRINTER's table *)
+Lemma code_text_rejects_undefined_lemma : forall s,
+  (forall c, assocN c code_names <> Some s) ->
+  (forall r, s = code_parse_prefix ++ r -> go_parse_int64 r = None) ->
+  code_unmarshal s = None.
+Proof.
+  intros s Hn Hp. apply code_text_rejects_lemma; [|exact Hp].
+  destruct (assocB s code_parse_names) as [c|] eqn:E; [|reflexivity].
+  exfalso. destruct (assocB_Some_in _ _ _ E) as (k' & Hin & Ek).
+  pose proof parse_names_are_names_ok as H. unfold parse_names_are_names in H.
+  rewrite forallb_forall in H. specialize (H (k', c) Hin). cbn [fst snd] in H.
+  destruct (assocN c code_names) as [n|] eqn:En; [|discriminate].
+  apply bs_eqb_eq in H. apply bs_eqb_eq in Ek. subst. exact (Hn c En).
+Qed.
+
 (* code_<n> with n inside the named range is rejected as well *)
 Lemma code_text_rejects_named_number : forall r z,
   go_parse_int64 r = Some z -> (Z.of_N min_code <= z <= Z.of_N max_code)%Z ->
